@@ -106,3 +106,17 @@ def reset_variables(self: 'Tree', fmt: 'str') -> 'none':
     ensures(all([r for r, _ in n[1]] == [r for r, _ in m[1]]
                 for n, m in zip(nodes_of(old(self).node), nodes_of(self.node))), label='roles-kept')
     ensures(self.metadata == old(self).metadata, label='metadata-kept')
+
+
+# ---- the default variable prefix (C10): first alphabetic character of the concept, lower-cased -----------
+
+@contract('penman.tree:_default_variable_prefix')
+def _default_variable_prefix(concept: 'val') -> 'str':
+    # a concept that is not a non-empty string has the prefix '_'
+    ensures(implies(not (is_str(concept) and len(concept) > 0), result == '_'), label='no-text')
+    # otherwise: the first alphabetic character, lower-cased; '_' when there is none
+    ensures(implies(is_str(concept) and len(concept) > 0,
+                    (result == '_' and forall_idx(concept, lambda j, c: not c.isalpha()))
+                    or exists_idx(concept, lambda k, c: c.isalpha() and result == c.lower()
+                                  and forall_idx(concept[:k], lambda j, d: not d.isalpha()))), label='first-letter')
+    invariant(0, lambda: prefix == '_' and forall_idx(concept[:_i], lambda j, c: not c.isalpha()))
